@@ -89,12 +89,38 @@ func TestWriteReplays(t *testing.T) {
 		Steps: []Step{{First: 80*mib - 1, Post: 0}, {First: 80 * mib, Post: 0}, {First: 100 * mib, Post: 80*mib - 1}, {First: 400 * mib, Post: 100 * mib},
 			{First: 79 * mib, Post: 0}, {First: 512 * mib, Post: 0}},
 	})
-	write("06-refcount-three-processors.json", "refcount", RCScript{Cfg: readme, Signals: []string{sig.Logs, sig.Metrics, sig.Logs}, FreezeMS: 4, Unstarted: 1, Ops: []Op{
+	gen0 := RCGen{CfgMode: "first", Cfg: readme, Signals: []string{sig.Logs, sig.Metrics, sig.Logs}, Unstarted: 1, Ops: []Op{
 		{Kind: "start", Proc: 0, On: 0, Probe: &Phase{First: soft, Post: 0, Calls: []Call{{Payload: logs, Downstream: "ok"}}}},
 		{Kind: "start", Proc: 1},
 		{Kind: "stop", Proc: 0, On: 1, Probe: &Phase{First: soft - 1, Post: 0, Calls: []Call{{Payload: metrics, Downstream: "ok"}}}},
 		{Kind: "start", Proc: 2, On: 2, Probe: &Phase{First: hard, Post: hard, Calls: []Call{{Payload: logs, Downstream: "ok"}}}},
 		{Kind: "stop", Proc: 1, On: 2, Probe: &Phase{First: 0, Post: 0, Calls: []Call{{Payload: logs, Downstream: "err"}}}},
 		{Kind: "stop", Proc: 2},
+	}}
+	write("06-refcount-three-processors.json", "refcount", RCScript{FreezeMS: 4, Gens: []RCGen{gen0}})
+	// "reload" on one long-lived factory: generation 0 is shut down completely while NOT refusing, generation 1 is
+	// created from a NEW config object with EQUAL settings and must get a live checker: usage above the hard limit has
+	// to be refused, then accepted again below soft; generation 2 (different settings: soft 80 MiB) likewise, starting
+	// from the refusing side.
+	reload := func(mode string, c Cfg, sft uint64, up bool) RCGen {
+		lo := &Phase{First: sft - 1, Post: 0, Calls: []Call{{Payload: logs, Downstream: "ok"}}}
+		hi := &Phase{First: 5 * sft, Post: 5 * sft, Calls: []Call{{Payload: logs, Downstream: "ok"}}}
+		a, b := lo, hi
+		if up {
+			a, b = hi, lo
+		}
+		return RCGen{CfgMode: mode, Cfg: c, Signals: []string{sig.Logs, sig.Metrics}, Ops: []Op{
+			{Kind: "start", Proc: 0, On: 0, Probe: a},
+			{Kind: "probe", On: 0, Probe: b},
+			{Kind: "start", Proc: 1},
+			{Kind: "stop", Proc: 0, On: 1, Probe: &Phase{First: a.First, Post: a.Post, Calls: []Call{{Payload: metrics, Downstream: "perm"}}}},
+			{Kind: "probe", On: 1, Probe: &Phase{First: lo.First, Post: 0, Calls: []Call{{Payload: metrics, Downstream: "ok"}}}},
+			{Kind: "stop", Proc: 1},
+		}}
+	}
+	small := Cfg{LimitMiB: 100, SpikeMiB: 20, SoftGCms: hourMS, HardGCms: hourMS}
+	write("09-refcount-reload-generations.json", "refcount", RCScript{FreezeMS: 3, Gens: []RCGen{
+		reload("first", readme, soft, false), reload("new-equal-object", readme, soft, true), reload("different", small, 80*mib, true),
+		reload("new-equal-object", small, 80*mib, false),
 	}})
 }
